@@ -1,6 +1,8 @@
 """C04 — vendor text and config trees round-trip for every supported vendor (DESIGN §3.C04)."""
 from __future__ import annotations
 
+import json
+
 import collections
 
 from .. import core
@@ -116,7 +118,17 @@ def ros_tree(rng, depth=0, line=()):
             continue
         used.add(w)
         out.append([w, ros_body(rng, 1)])
+        twin(rng, out, used)
     return out
+
+
+def twin(rng, out, used):
+    """neighbouring sections with EQUAL contents (RosFormatter groups adjacent rows whose children compare equal)"""
+    if rng.random() < 0.3:
+        w2 = rng.choice(ROS_WORDS)
+        if w2 not in used:
+            used.add(w2)
+            out.append([w2, json.loads(json.dumps(out[-1][1]))])
 
 
 def ros_body(rng, depth):
@@ -128,6 +140,7 @@ def ros_body(rng, depth):
                 continue
             used.add(w)
             out.append([w, ros_body(rng, depth + 1)])
+            twin(rng, out, used)
         else:
             r = rng.choice(ROS_LEAVES)
             if r in used:
